@@ -71,6 +71,18 @@ def const_of(n):
     return None
 
 
+def comment_text(n):
+    out = []
+    def walk(x):
+        if x.get('kind') == 'TextComment':
+            out.append(x.get('text', ''))
+        for c in x.get('inner', []):
+            if 'Comment' in c.get('kind', ''):
+                walk(c)
+    walk(n)
+    return ' '.join(out).strip()
+
+
 class World:
     """types, enums, records, global constants and function definitions of one translation unit"""
 
@@ -120,9 +132,13 @@ class World:
                 elif ck == 'CXXConstructorDecl' and not c.get('isImplicit'):
                     ctors.append(c)
                 elif ck == 'CXXRecordDecl' and c.get('completeDefinition'):   # anonymous struct of named bits
+                    pos = 0
                     for f in c.get('inner', []):
                         if f.get('kind') == 'FieldDecl' and f.get('isBitfield'):
-                            bits += const_of(f) or 0
+                            pos += const_of(f) or 0
+                            # bits the type itself documents as "reserved" are outside the documented range
+                            if comment_text(f).lower() != 'reserved':
+                                bits = pos
             self.records[d['name']] = {'tag': d.get('tagUsed'), 'fields': fields, 'methods': methods, 'ctors': ctors,
                                        'namedBits': bits}
         elif k in ('TypeAliasDecl', 'TypedefDecl') and d.get('name'):
@@ -213,6 +229,12 @@ class Fp:
         self.kind, self.arg = kind, arg
 
 
+class Hdr:
+    """a header member of the message being parsed (PGN, DataLen); only comparisons with constants are understood"""
+    def __init__(self, name):
+        self.name = name
+
+
 class Unknown:
     """value outside the fragment; poisons whatever it flows into"""
     def __init__(self, why):
@@ -273,6 +295,9 @@ class Eval:
         self.out_assigned = {}      # parser: field -> value
         self.frame = Frame()
         self.msgname = None
+        self.accept_cond = None
+        self.retval = None
+        self.len_min, self.len_max = 0, 223
         self.setup_params()
 
     # ---- fields
@@ -515,6 +540,8 @@ class Eval:
         if base['kind'] == 'DeclRefExpr':
             bname = base['referencedDecl']['name']
             if bname == self.msgname:
+                if self.mode == 'parse' and mname in ('PGN', 'DataLen'):
+                    return Hdr(mname)
                 return Unknown('message member ' + mname)
             bt = self.w.ty(base['type'])
             if bt[0] == 'rec':
@@ -536,6 +563,8 @@ class Eval:
                   'FunctionToPointerDecay', 'BitCast'):
             return v
         t = self.tyn(n)
+        if isinstance(v, Hdr):
+            return v if ck == 'IntegralCast' else Unknown('header member cast')
         if ck == 'IntegralCast':
             if isinstance(v, Int):
                 if t[0] == 'enum':
@@ -609,6 +638,14 @@ class Eval:
             return a
         if isinstance(b, Unknown):
             return b
+        if isinstance(a, Hdr) or isinstance(b, Hdr):
+            flip = {'<': '>', '>': '<', '<=': '>=', '>=': '<=', '==': '==', '!=': '!='}
+            if isinstance(b, Hdr):
+                a, b, op = b, a, flip.get(op, '?')
+            c = b.const() if isinstance(b, Int) else None
+            if c is None or op not in flip:
+                return Unknown('header member in an expression')
+            return Int([('hc', (a.name, op, c))])
         if isinstance(a, Fp) or isinstance(b, Fp):
             return self.fp_binop(op, a, b)
         if op in ('&', '|', '^'):
@@ -642,7 +679,10 @@ class Eval:
             return Unknown('comparison of symbolic values')
         if op in ('&&', '||'):
             if len(a.bits) == 1 and len(b.bits) == 1:
-                r = self.and_bit(a.bits[0], b.bits[0]) if op == '&&' else self.or_bit(a.bits[0], b.bits[0])
+                x, y = a.bits[0], b.bits[0]
+                if op == '&&' and isinstance(x, tuple) and isinstance(y, tuple) and x[0] == 'hc' and y[0] == 'hc':
+                    return Int([('hc', ('and', x[1], y[1]))])
+                r = self.and_bit(x, y) if op == '&&' else self.or_bit(x, y)
                 if r is not None:
                     return Int([r])
             return Unknown('logical operator on symbolic values')
@@ -1076,6 +1116,12 @@ class Eval:
             if c.bits[0] == 1:
                 return self.stmt(then)
             return self.stmt(els) if els is not None else None
+        if (self.mode == 'parse' and self.depth == 0 and els is None and isinstance(c, Int) and isinstance(c.bits[0], tuple)
+                and c.bits[0][0] == 'hc' and self.accept_cond is None):
+            # `if (header condition) { read the fields }` : the layout describes the accepted messages; the function
+            # must return exactly this condition (checked at the end)
+            self.accept_cond = c.bits[0]
+            return self.stmt(then)
         return self.symbolic_if(st, then, els)
 
     def is_return_false(self, st):
@@ -1208,9 +1254,29 @@ class Eval:
                     break
                 raise
             if r is not None:
-                if r[0] == 'tail':
-                    break
+                if r[0] == 'return':
+                    self.retval = r[1]
                 break
+        if self.mode == 'parse' and self.accept_cond is not None:
+            rv = self.retval
+            rv = self.to_bool(rv) if isinstance(rv, Int) and len(rv.bits) != 1 else rv
+            if not (isinstance(rv, Int) and rv.bits[0] == self.accept_cond):
+                raise Untranslatable('fields are read under a header condition that is not the return value')
+            def lits(c):
+                return lits(c[1]) + lits(c[2]) if c[0] == 'and' else [c]
+            for name, op, cv in lits(self.accept_cond[1]):
+                if name == 'PGN' and op == '==' and self.guard is None:
+                    self.guard = cv
+                elif name == 'DataLen' and op == '>=':
+                    self.len_min = max(self.len_min, cv)
+                elif name == 'DataLen' and op == '>':
+                    self.len_min = max(self.len_min, cv + 1)
+                elif name == 'DataLen' and op == '<=':
+                    self.len_max = min(self.len_max, cv)
+                elif name == 'DataLen' and op == '<':
+                    self.len_max = min(self.len_max, cv - 1)
+                else:
+                    raise Untranslatable('header condition %s %s %s' % (name, op, cv))
         return self
 
     def out_any(self):
@@ -1355,6 +1421,7 @@ def build_pair(world, pid, sfn, pfn, stats):
         R['parser_ok'] = True
         R['guard'] = P.guard
         R['payload_guard'] = P.payload_guard
+        R['len_min'], R['len_max'] = P.len_min, P.len_max
         R['parser_tail'] = P.tail
         for f in P.fields:
             nme = canon(f['name'])
@@ -1530,6 +1597,7 @@ def emit_lean(results, gen_dir, stats):
           'set_option Elab.async false   -- hundreds of tiny kernel evaluations: thread hand-over costs more than the proofs',
           'namespace N2k.Gen.LayoutProofs', 'open N2k.Layout N2k.Gen.Layouts', '']
     pair_names, n_obl, failing, negated = [], 0, [], []
+    ok_pairs, open_pairs = [], []
     translated_pairs = 0
     for R in results:
         nm = 'pair_' + ident(R['id'])
@@ -1555,6 +1623,8 @@ def emit_lean(results, gen_dir, stats):
         L.append('  parseScaled := [%s]' % ', '.join(lean_rec(idx[k], v) for k, v in R['pscaled'].items()))
         L.append('  payloadGuard := [%s]' % ', '.join('(%d, %s)' % (k, 'true' if b else 'false') for k, b in R.get('payload_guard', [])))
         L.append('  opaqueOut := [%s]' % ', '.join(str(idx[n_]) for n_ in R['opaque']))
+        L.append('  lenMin := %d' % R.get('len_min', 0))
+        L.append('  lenMax := %d' % R.get('len_max', 223))
         L.append('')
         pair_names.append(nm)
         if not (R['setter_ok'] and has_parser):
@@ -1593,11 +1663,26 @@ def emit_lean(results, gen_dir, stats):
         n_obl += 1
         R['field_theorems'] = fld_thms
         R['guard_theorem'] = None if gk in openk else gtn
+        if len(fld_thms) == len(R['checked']) and gk not in openk:
+            Pf.append('theorem C05_pair_%s : pairOK %s = true :=' % (pgn_txt, nm))
+            Pf.append('  pairOK_of %s [%s] rfl' % (nm, ', '.join(str(o) for o, _ in fld_thms)))
+            Pf.append('    (by simp only [List.all_cons, List.all_nil, Bool.and_true, Bool.and_self%s])' % ''.join(', ' + t for _, t in fld_thms))
+            Pf.append('    %s' % gtn)
+            ok_pairs.append((nm, 'C05_pair_%s' % pgn_txt))
+        else:
+            open_pairs.append(nm)
         Pf.append('')
     L.append('/-- every function pair / setter the translator looked at -/')
     L.append('def all : List Pair := [%s]' % ', '.join(pair_names))
+    L.append('/-- pairs with both sides translated and every obligation stated positively -/')
+    L.append('def okPairs : List Pair := [%s]' % ', '.join(n for n, _ in ok_pairs))
+    L.append('/-- pairs with a field listed as an open known finding (obligation stated as a mismatch) -/')
+    L.append('def pairsWithOpenFindings : List Pair := [%s]' % ', '.join(open_pairs))
     L += ['', 'end N2k.Gen.Layouts', '']
-    Pf += ['end N2k.Gen.LayoutProofs', '']
+    Pf.append('/-- every translated pair satisfies all its obligations -/')
+    Pf.append('theorem C05_all_pairs : okPairs.all pairOK = true := by')
+    Pf.append('  simp only [okPairs, List.all_cons, List.all_nil, Bool.and_true, Bool.and_self%s]' % ''.join(', ' + t for _, t in ok_pairs))
+    Pf += ['', 'end N2k.Gen.LayoutProofs', '']
     write_if_changed(os.path.join(gen_dir, 'Layouts.lean'), '\n'.join(L))
     write_if_changed(os.path.join(gen_dir, 'LayoutProofs.lean'), '\n'.join(Pf))
     stats.update(obligations=n_obl, predicted_failing_obligations=failing, negated_for_open_findings=negated,
